@@ -4,6 +4,7 @@ package main
 
 import (
 	"fmt"
+	"go/token"
 	"go/types"
 	"os"
 	"path/filepath"
@@ -284,7 +285,8 @@ func (c *Ctx) ruleFlagTable() {
 		where := P.Pos(call.Pos())
 		// bool: false | parseBool(Getenv(SCAN_TESTS)) under Getenv != ""
 		leaves := c.phiLeaves(a[0], nil, 0)
-		okB := len(leaves) == 2
+		// (parseBool("") is false - CONFIG/BOOL -, so parseBool(Getenv(X)) without the non-empty test is the same value)
+		okB := len(leaves) == 2 || (len(leaves) == 1 && func() bool { _, isC := constBool(leaves[0].Val); return !isC }())
 		for _, lf := range leaves {
 			if cv, isC := constBool(lf.Val); isC {
 				if cv {
@@ -729,6 +731,12 @@ func (c *Ctx) ruleOneFilter() {
 				for _, s := range lb.Succs {
 					if loop[s] || lb.Comment == "rangeindex.loop" {
 						continue
+					}
+					// for i := 0; i < len(files); i++: the head of a full counting loop over the files
+					if ifi, isIf := lastInstr(lb).(*ssa.If); isIf {
+						if bo, isB := ifi.Cond.(*ssa.BinOp); isB && bo.Op == token.LSS && fullIndexLoopBound(bo.X) != nil && lb.Succs[1] == s {
+							continue
+						}
 					}
 					just := false
 					for _, l := range g.edgeLits[edge{lb, s}] {
